@@ -37,7 +37,17 @@ def _contains(node, pred):
     return any(pred(n) for n in ast.walk(node))
 
 
-def _group_step(st, namevar):
+def _table_aliases(stmts, namevar):
+    """locals bound (once, at the top level) to `self.process_groups[name]`: `group = self.process_groups[name]`"""
+    al = set()
+    for st in stmts:
+        if isinstance(st, ast.Assign) and len(st.targets) == 1 and isinstance(st.targets[0], ast.Name) and \
+                _src(st.value) == '%s[%s]' % (TABLE, namevar):
+            al.add(st.targets[0].id)
+    return al
+
+
+def _group_step(st, namevar, aliases=()):
     """one statement of add_/remove_process_group -> Lean `Step` term (or None for a statement without effect here)"""
     if isinstance(st, ast.Return):
         if isinstance(st.value, ast.Constant) and isinstance(st.value.value, bool):
@@ -64,7 +74,7 @@ def _group_step(st, namevar):
                 raise Untranslatable('stored value is not a call without arguments: ' + _src(st))
             return '.insertMade %s' % lean_str(_src(st.value.func).split('.')[-1])
         if isinstance(t, ast.Name) and not _contains(st.value, lambda n: isinstance(n, ast.Call)):
-            return None          # a local bound to an attribute: no effect
+            return None          # a local bound to an attribute / to the table entry of the group operated on: no effect
         if _contains(st, lambda n: _src(n) == TABLE) or _contains(st.value, _is_notify):
             raise Untranslatable('assignment involving the table or a notification: ' + _src(st))
         return '.call %s' % lean_str(_src(st.value.func).split('.')[-1] if isinstance(st.value, ast.Call) else 'assign')
@@ -72,7 +82,8 @@ def _group_step(st, namevar):
         t = st.targets[0]
         if isinstance(t, ast.Subscript) and _src(t.value) == TABLE and _src(t.slice) == namevar:
             return '.delete'
-    if isinstance(st, ast.If) and not st.orelse and _src(st.test) == '%s[%s].get_unstopped_processes()' % (TABLE, namevar) \
+    unstopped_tests = ['%s[%s].get_unstopped_processes()' % (TABLE, namevar)] + ['%s.get_unstopped_processes()' % a for a in aliases]
+    if isinstance(st, ast.If) and not st.orelse and _src(st.test) in unstopped_tests \
             and len(st.body) == 1 and isinstance(st.body[0], ast.Return) and isinstance(st.body[0].value, ast.Constant):
         return '.retIfUnstopped %s' % ('true' if st.body[0].value.value else 'false')
     if isinstance(st, ast.Expr) and isinstance(st.value, ast.Constant):
@@ -81,7 +92,8 @@ def _group_step(st, namevar):
 
 
 def _steps(stmts, namevar):
-    return [s for s in (_group_step(st, namevar) for st in stmts) if s is not None]
+    al = _table_aliases(stmts, namevar)
+    return [s for s in (_group_step(st, namevar, al) for st in stmts) if s is not None]
 
 
 def _name_var(f, expect_param=None):
